@@ -254,6 +254,9 @@ func (c *Conf) InitFromBytes(content []byte) error {
 				leaf.setValue(v)
 				currNode.addChild(k, leaf)
 			}
+			if err := lineDecoder.Err(); err != nil {
+				return fmt.Errorf("parse config error: %v", err)
+			}
 		case xml.StartElement:
 			nodeName := t.Name.Local
 			node, ok := currNode.findChild(nodeName)
